@@ -75,12 +75,33 @@ def gen_routing(tier, wd, seed):
     return path, runs, st, n
 
 
+DD_PROPS = ("C06", "C07", "C08", "C09", "C10", "C11", "C13", "C15", "C19")
+
+
+def dd_part(prop, tier, wd, seed, path):
+    """the relations once more with a double-double scalar as the user's type (harness checks/ddprec.rs); returns
+    (violations of prop, counters)"""
+    s = core.mt("replay-dd", path, os.path.join(wd, "dd.json"), seed, {"points": 4 if tier == "quick" else 12,
+                                                                        "max": 600 if tier == "quick" else 100000})
+    c = s["counters"]
+    if c.get("dd_points_checked", 0) < 500:
+        raise core.ToolError("vacuity guard: only %d points checked with the double-double scalar" % c.get("dd_points_checked", 0))
+    return [v for v in s["violations"] if v["property"] == prop], c
+
+
 def run(prop, tier, seed, replay=None):
     t0 = time.time()
     wd = core.workdir(prop)
     core.cargo_build()
     if replay:
         rp = json.load(open(replay))
+        if rp["instance"].get("dd"):
+            inp = os.path.join(wd, "replay.ndjson")
+            core.write_lines(inp, [rp["instance"]["line"]])
+            s = core.mt("replay-dd", inp, os.path.join(wd, "sum.json"), rp.get("seed", seed), {"base_idx": rp["instance"].get("idx", 0), "points": 12})
+            bad = [v for v in s["violations"] if v["property"] == prop]
+            print(("VIOLATION property=%s replay=%s" % (prop, replay)) if bad else ("OK property=%s (replay)" % prop))
+            return 1 if bad else 0
         if "run" in rp["instance"]:
             return p_flow.run(prop, tier, seed, replay)
         if "size_limit" in rp["instance"]:
@@ -148,6 +169,11 @@ def run(prop, tier, seed, replay=None):
             violations.append({"property": p, "what": "recorded execution is not a behaviour of the Sample specification: first unmatched event %s"
                                % json.dumps(x["event"])[:300], "instance": {"run": x["run"]}, "detail": {"event": x["event"], "runner": "trace-sample"}})
         tv = {"module": "Trace_Sample", "events": fs["events"], "runs": fs["evaluations"], "accepted_runs": acc, "rejected_runs": len(rej), "tlc_states": tstates}
+    ddc = None
+    if prop in DD_PROPS:
+        ddv, ddc = dd_part(prop, tier, wd, seed, path)
+        violations += ddv
+        c["violations_" + prop] = c.get("violations_" + prop, 0) + ddc.get("violations_" + prop, 0)
     states = sum(r.distinct for (_, _, _, r) in mcs) + (tv["tlc_states"] if tv else 0)
     trans = sum(r.generated for (_, _, _, r) in mcs)
     cov = {
@@ -169,6 +195,8 @@ def run(prop, tier, seed, replay=None):
     }
     if tv:
         cov["trace_validation"] = tv
+    if ddc:
+        cov["double_double_scalar"] = {"what": "the same relations with a double-double user type at ~1e-27 x condition (harness checks/ddprec.rs)", "counters": ddc}
     if sec:
         cov["sample_behaviours_replayed"] = sec
         cov["traces_validated_against_impl"] += sec["behaviours_replayed"]
